@@ -346,7 +346,7 @@ func (fr *Frame) modCall(call *ast.CallExpr, ms *modSet, info *types.Info, visit
 		return
 	}
 	if c := fr.eng.contractFor(callee); c != nil {
-		if c.Pure {
+		if c.Pure && len(c.GhostAdds) == 0 {
 			return
 		}
 		if !c.HasFrame {
@@ -356,6 +356,10 @@ func (fr *Frame) modCall(call *ast.CallExpr, ms *modSet, info *types.Info, visit
 		ms.alloc = true
 		if err := fr.frameHeaps(c, callee, ms); err != nil {
 			ms.all = true
+		}
+		for _, ga := range c.GhostAdds {
+			hn, hs := ghostHeap(ga.Set)
+			ms.touch(hn, hs)
 		}
 		return
 	}
@@ -382,7 +386,11 @@ func (fr *Frame) modCall(call *ast.CallExpr, ms *modSet, info *types.Info, visit
 		return
 	}
 	for k, v := range inner.heaps {
-		ms.touch(k, v)
+		if inner.whole[k] || len(inner.via[k]) > 0 || len(inner.fields[k]) > 0 {
+			ms.touch(k, v)
+		} else {
+			ms.allocTouch(k, v) // the callee only allocates in this heap
+		}
 	}
 	if inner.alloc {
 		ms.alloc = true
@@ -512,6 +520,10 @@ func (fr *Frame) havocMod(s *State, ms *modSet) {
 func (fr *Frame) loopSpec(n ast.Node) (*LoopSpec, int) {
 	// loops are numbered in source order inside the function under verification
 	top := fr
+	// a loop inside a function literal of the function under verification is numbered with that function's loops
+	for top.depth > 0 && top.lit != nil && top.parent != nil && top.parent.fi == top.fi {
+		top = top.parent
+	}
 	if top.fi == nil || top.depth > 0 || top.contract == nil {
 		return nil, 0
 	}
@@ -784,8 +796,10 @@ func (fr *Frame) execRangeMap(s *State, x *ast.RangeStmt, label string, coll *Va
 	seen0 := fmt.Sprintf("((as const (Array %s Bool)) false)", ks)
 	seenT := types.NewMap(mt.Key(), types.Typ[types.Bool])
 	_ = seenT
+	// ghost: iter_ = number of keys visited so far (a map holds at most 2^62 entries)
+	iterCur := "0"
 	extra := func(seen string) map[string]*Val {
-		return map[string]*Val{"seen_": {T: types.NewArray(types.Typ[types.Bool], 0), S: seen}}
+		return map[string]*Val{"seen_": {T: types.NewArray(types.Typ[types.Bool], 0), S: seen}, "iter_": {T: intT, S: iterCur}}
 	}
 	if spec != nil {
 		for i, inv := range spec.Invariants {
@@ -803,6 +817,9 @@ func (fr *Frame) execRangeMap(s *State, x *ast.RangeStmt, label string, coll *Va
 	head := s.clone()
 	fr.havocMod(head, ms)
 	seen := fr.vc.declare("seen", fmt.Sprintf("(Array %s Bool)", ks))
+	iterCur = fr.vc.declare("iter", "Int")
+	iterHead := iterCur
+	head.assume(fmt.Sprintf("(and (<= 0 %s) (<= %s 4611686018427387904))", iterCur, iterCur))
 	if spec != nil {
 		for _, inv := range spec.Invariants {
 			head.assume(fr.evalClause(head, inv, bodyPos, extra(seen)))
@@ -814,9 +831,11 @@ func (fr *Frame) execRangeMap(s *State, x *ast.RangeStmt, label string, coll *Va
 	more := fr.vc.declare("more", "Bool") // whether an unvisited key remains
 	head.assume(implies(more, present))
 	// when no more keys: every present key has been visited
-	head.assume(implies(not(more), fmt.Sprintf("(forall ((q %s)) (=> (and (not (= %s 0)) (select (select %s %s) q)) (select %s q)))", ks, coll.S, head.heap(dn, ds), coll.S, seen)))
+	head.assume(implies(not(more), fmt.Sprintf("(forall ((q %s)) (! (=> (and (not (= %s 0)) (select (select %s %s) q)) (select %s q)) :pattern ((select (select %s %s) q)) :pattern ((select %s q))))",
+		ks, coll.S, head.heap(dn, ds), coll.S, seen, head.heap(dn, ds), coll.S, seen)))
 	sb := head.fork(more)
 	sx := head.fork(not(more))
+	sb.assume(fmt.Sprintf("(< %s 4611686018427387904)", iterHead))
 	if keyObj != nil {
 		if define {
 			fr.declVar(sb, keyObj, kk)
@@ -838,6 +857,7 @@ func (fr *Frame) execRangeMap(s *State, x *ast.RangeStmt, label string, coll *Va
 	cont := mergeAll(append([]*State{end}, lc.continues...))
 	if cont != nil && spec != nil {
 		seen1 := fmt.Sprintf("(store %s %s true)", seen, kk.S)
+		iterCur = fmt.Sprintf("(+ %s 1)", iterHead)
 		for i, inv := range spec.Invariants {
 			t := fr.evalClause(cont, inv, bodyPos, extra(seen1))
 			fr.vc.oblige(cont, fmt.Sprintf("inv-step.L%d.", ord), t, x.Pos(), fmt.Sprintf("loop %d invariant %d preserved: %s", ord, i+1, inv.Text))
